@@ -510,7 +510,11 @@ func decode(thread *starlark.Thread, b *starlark.Builtin, args starlark.Tuple, k
 				if num[0] == '-' {
 					digits = num[1:]
 				}
-				if digits == "" || digits[0] == '0' && len(digits) > 1 && isdigit(digits[1]) {
+				if digits == "" || !isdigit(digits[0]) || digits[0] == '0' && len(digits) > 1 && isdigit(digits[1]) {
+					fail("invalid number: %s", num)
+				}
+				// A decimal point must be followed by a digit.
+				if k := strings.IndexByte(num, '.'); k >= 0 && (k+1 == len(num) || !isdigit(num[k+1])) {
 					fail("invalid number: %s", num)
 				}
 
